@@ -51,6 +51,7 @@ type concCase struct {
 	pl     conc.Plan
 	classA bool
 	depth  map[string]bool
+	cons   *c13Cons // C13: store-level exactly-once oracle on the closed store
 }
 
 func genConcCase(c run.Ctx, prop string, withGC bool) concCase {
@@ -131,6 +132,9 @@ func runConc(c run.Ctx, cc concCase, res *core.CaseResult, sigPrefix string, dec
 	rt.Delay = conc.NoiseDelay(cc.pl.Seed, cc.pl.Mode, cc.depth)
 	rt.Install()
 	defer hookrt.Uninstall()
+	if cc.cons != nil {
+		cc.cons.install(rt, env)
+	}
 	out := conc.Run(env, cc.pl, rt, res)
 	if out == nil {
 		return nil
@@ -182,6 +186,9 @@ func runConc(c run.Ctx, cc concCase, res *core.CaseResult, sigPrefix string, dec
 				}
 				sub.Violate("fsck", sigPrefix+"fsck-"+pr.Clause, 0, lines, "[post-concurrency, after Close] %s", pr)
 			}
+		}
+		if cc.cons != nil {
+			cc.cons.final(res, env, sigPrefix)
 		}
 	})
 	if p != nil {
